@@ -170,7 +170,7 @@ func (w *World) verifyOnce(fn *ssa.Function, ct *Contract, opts VerifyOpts, cuts
 			continue
 		}
 		nret++
-		if nret <= 6 {
+		if nret <= 64 {
 			e.cover(o.St, "return")
 		}
 		if ct == nil {
